@@ -1,3 +1,10 @@
-From Concepts Require Import Run.ObsDef.
-Definition case := ObsDef.case.
-Definition check := ObsDef.check.
+(** C14 cases: histories of the Definition machine (Run/ObsDef.v) or shape / fill_ratio observations (Run/ObsStats.v). *)
+From Coq Require Import List.
+From Concepts Require Import Run.ObsDef Run.ObsStats.
+Import ListNotations.
+Definition case := (ObsDef.case + ObsStats.case)%type.
+Definition check (c : case) : list nat :=
+  match c with
+  | inl h => ObsDef.check h
+  | inr s => ObsStats.check s
+  end.
